@@ -8,6 +8,8 @@ import (
 	"fmt"
 	"math"
 	"math/big"
+	"reflect"
+	"unsafe"
 	"strconv"
 	"strings"
 
@@ -41,7 +43,9 @@ type Op struct {
 	Key *string `json:"key,omitempty"` // integer key (decimal, exactly representable) ...
 	Ks  string  `json:"ks,omitempty"`  // ... or a canonical numeric string that is no integer index
 	Le  bool    `json:"le,omitempty"`
-	NoLe bool   `json:"nole,omitempty"` // DataView get/set: omit the littleEndian argument
+	NoLe bool   `json:"nole,omitempty"`
+	Via  int    `json:"via,omitempty"`  // goexport*: 0 = Value.Export(), 1 = Runtime.ExportTo(&[]T)
+	Raw  string `json:"raw,omitempty"`  // goexportwrite: the element's bit pattern (unsigned, decimal) // DataView get/set: omit the littleEndian argument
 	I   int     `json:"i,omitempty"` // GoWrite index
 	X   int     `json:"x,omitempty"` // GoWrite byte
 }
@@ -353,6 +357,11 @@ func (e *env) valid(o *Op) bool {
 		return o.V >= 0 && o.V < nv && o.Val != nil
 	case "ctorfrom":
 		return o.S >= 0 && o.S < nv
+	case "goexport":
+		return o.V >= 0 && o.V < nv
+	case "goexportwrite":
+		_, ok := new(big.Int).SetString(o.Raw, 10)
+		return o.V >= 0 && o.V < nv && ok
 	case "includes", "indexof", "lastindexof":
 		return o.V >= 0 && o.V < nv && o.Val != nil && o.Val.D == 0
 	case "slice", "subarray", "reverse", "lens", "sort":
@@ -475,6 +484,8 @@ func (e *env) runOp(o *Op) (out stepOut) {
 		src = fmt.Sprintf("[V[%d].length,V[%d].byteLength,V[%d].byteOffset]", o.V, o.V, o.V)
 		coqOp = fmt.Sprintf("wLens %d", o.V)
 		kind = 3
+	case "goexport", "goexportwrite":
+		return e.runExport(o)
 	case "gowrite":
 		e.bufs[o.B].mem[o.I] = byte(o.X)
 		out.coqOp = fmt.Sprintf("wGoWrite %d %d %d", o.B, o.I, o.X)
@@ -529,6 +540,113 @@ func (e *env) runOp(o *Op) (out stepOut) {
 		// a failed constructor-like op must not leave a half-registered object behind
 		e.rt.RunString(fmt.Sprintf("V.length=%d;D.length=%d;B.length=%d;", len(e.views), len(e.dvs), len(e.bufs)))
 	}
+	out.coqObs = fmt.Sprintf("mkO %s %s %s %d", res, vh.CoqBool(e.canariesOK()), e.stepHash(), e.detMask())
+	return
+}
+
+var exportTypes = []reflect.Type{reflect.TypeOf([]int8(nil)), reflect.TypeOf([]uint8(nil)), reflect.TypeOf([]uint8(nil)),
+	reflect.TypeOf([]int16(nil)), reflect.TypeOf([]uint16(nil)), reflect.TypeOf([]int32(nil)), reflect.TypeOf([]uint32(nil)),
+	reflect.TypeOf([]float32(nil)), reflect.TypeOf([]float64(nil)), reflect.TypeOf([]int64(nil)), reflect.TypeOf([]uint64(nil))}
+
+func bytesHash(b []byte) uint64 {
+	h := uint64(7)
+	for _, x := range b {
+		h = (h*257 + uint64(x) + 1) & 0xffffffff
+	}
+	return h
+}
+
+// runExport: the Go owner obtains the native slice of the typed-array VIEW V[v] (Value.Export() or ExportTo(&[]T)).
+// Observed: where the slice starts relative to the start of the buffer's memory, its length, and a hash of its bytes
+// (goexport), or the effect of a write of element j through it (goexportwrite).  The slice is only dereferenced when
+// it lies inside the memory the harness owns (the slab of the buffer, or the buffer's own bytes).
+func (e *env) runExport(o *Op) (out stepOut) {
+	kind := e.views[o.V].kind
+	if o.O == "goexport" {
+		out.coqOp = fmt.Sprintf("wGoExport %d", o.V)
+	} else {
+		out.coqOp = fmt.Sprintf("wGoExportWrite %d %d %s", o.V, o.I, o.Raw)
+	}
+	res := "XOther"
+	func() {
+		defer func() {
+			if x := recover(); x != nil {
+				res = "XPanic"
+				out.human = fmt.Sprintf("HOSTPANIC %v", x)
+			}
+		}()
+		v, err := e.rt.RunString(fmt.Sprintf("V[%d]", o.V))
+		if err != nil {
+			return
+		}
+		var sl reflect.Value
+		if o.Via == 1 {
+			p := reflect.New(exportTypes[kind])
+			if err := e.rt.ExportTo(v, p.Interface()); err != nil {
+				out.human = "ExportTo: " + err.Error()
+				return
+			}
+			sl = p.Elem()
+		} else {
+			x := v.Export()
+			sl = reflect.ValueOf(x)
+			if sl.Kind() != reflect.Slice || sl.Type() != exportTypes[kind] {
+				out.human = fmt.Sprintf("Export type %T", x)
+				return
+			}
+		}
+		n, sz := sl.Len(), esize[kind]
+		ptr := sl.Pointer()
+		b := e.bufs[e.views[o.V].buf]
+		base := uintptr(unsafe.Pointer(unsafe.SliceData(b.mem)))
+		if b.ab.Detached() {
+			base = 0 // the data pointer of a detached buffer is nil
+		}
+		// the memory the harness owns around this buffer
+		lo, hi := base, base+uintptr(len(b.mem))
+		if b.slab != nil {
+			lo = uintptr(unsafe.Pointer(unsafe.SliceData(b.slab)))
+			hi = lo + uintptr(len(b.slab))
+		}
+		inside := !b.ab.Detached() && ptr >= lo && ptr+uintptr(n*sz) <= hi
+		rel := int64(ptr) - int64(base)
+		if o.O == "goexport" {
+			h := int64(-1)
+			if n == 0 {
+				h = int64(bytesHash(nil))
+			} else if inside {
+				h = int64(bytesHash(unsafe.Slice((*byte)(unsafe.Pointer(ptr)), n*sz)))
+			}
+			if n == 0 && !b.ab.Detached() {
+				rel = int64(e.views[o.V].off) // an empty slice has no meaningful address; length 0 is what matters
+				if ptr != 0 && int64(ptr)-int64(base) != rel {
+					rel = int64(ptr) - int64(base)
+				}
+			}
+			res = fmt.Sprintf("(XExp %s %d %s)", coqZs(strconv.FormatInt(rel, 10)), n, coqZs(strconv.FormatInt(h, 10)))
+			return
+		}
+		// goexportwrite
+		if o.I < 0 || o.I >= n {
+			res = "XUndef"
+			return
+		}
+		if !inside {
+			out.human = "exported slice outside the owner's memory"
+			return // XOther
+		}
+		raw, _ := new(big.Int).SetString(o.Raw, 10)
+		u := raw.Uint64()
+		p := unsafe.Slice((*byte)(unsafe.Pointer(ptr+uintptr(o.I*sz))), sz)
+		for i := 0; i < sz; i++ {
+			p[i] = byte(u >> (8 * uint(i)))
+		}
+		res = "XUndef"
+	}()
+	if out.human == "" {
+		out.human = res
+	}
+	out.panicked = res == "XPanic"
 	out.coqObs = fmt.Sprintf("mkO %s %s %s %d", res, vh.CoqBool(e.canariesOK()), e.stepHash(), e.detMask())
 	return
 }
@@ -615,7 +733,7 @@ func runCase(c Case) vh.Record {
 			tags["dv:default-big-endian"] = true
 		}
 		switch o.O {
-		case "get", "set", "setarr", "settyped", "copywithin", "fill", "slice", "subarray", "reverse", "sort", "includes", "indexof", "lastindexof":
+		case "get", "set", "setarr", "settyped", "copywithin", "fill", "slice", "subarray", "reverse", "sort", "includes", "indexof", "lastindexof", "goexport", "goexportwrite":
 			if o.V < len(e.views) && e.views[o.V].off > 0 {
 				tags["view:byteOffset>0"] = true
 			}
@@ -632,6 +750,9 @@ func runCase(c Case) vh.Record {
 			if d.buf == sv.buf && d.kind == sv.kind {
 				tags["settyped:same-buffer-same-kind"] = true
 			}
+		}
+		if (o.O == "goexport" || o.O == "goexportwrite") && o.V < len(e.views) {
+			tags[fmt.Sprintf("export:%s:off>0=%v", kindNames[e.views[o.V].kind], e.views[o.V].off > 0)] = true
 		}
 		if o.O == "ctor" || o.O == "get" || o.O == "set" || o.O == "fill" {
 			tags["kind:"+kindNames[o.K]] = true
